@@ -10,7 +10,7 @@ import (
 
 // ---------- abstract inputs (replayable JSON; the same structure as coq/C20/Model.v) ----------
 
-// Val is a scalar: T = "n" number, "s" string code, "b" bool.
+// Val is a value: T = "n" number, "s" string code, "b" bool, "a" an array (opaque, identified by S).
 type Val struct {
 	T string `json:"t"`
 	N int64  `json:"n,omitempty"`
@@ -18,7 +18,8 @@ type Val struct {
 	B bool   `json:"b,omitempty"`
 }
 
-// Attr is one credentialSubject member a<K>.
+// Attr is one credentialSubject leaf: K < 100 is the member a<K>, K = 100*o + k is the member a<k> of the nested
+// object o<o> (so a1 and o5.a1 carry the same claim name at two levels).
 type Attr struct {
 	K int `json:"k"`
 	V Val `json:"v"`
@@ -32,7 +33,12 @@ type Cred struct {
 	Types   []int  `json:"types"`
 	Proofs  []int  `json:"proofs,omitempty"`
 	JWT     int    `json:"jwt,omitempty"`
-	Attrs   []Attr `json:"attrs"`
+	// SD: an SD-JWT credential (every credentialSubject leaf is selectively disclosable); JWT is then the alg code.
+	SD    bool   `json:"sd,omitempty"`
+	// MapSubject: the holder built the credential object itself and holds the subject as a map (as the package's
+	// own tests do) instead of the []Subject form ParseCredential produces. Not part of the model: it must not matter.
+	MapSubject bool `json:"map_subject,omitempty"`
+	Attrs []Attr `json:"attrs"`
 }
 
 // Filter is a JSON-schema filter.
@@ -115,6 +121,8 @@ func coqVal(v Val) string {
 		return "VNum " + hx.CoqZ(v.N)
 	case "s":
 		return "VStr " + hx.CoqN(v.S)
+	case "a":
+		return "VArr " + hx.CoqN(v.S)
 	default:
 		return "VBool " + hx.CoqBool(v.B)
 	}
@@ -151,9 +159,9 @@ func coqCred(c Cred) string {
 		at[i] = fmt.Sprintf("(%s, %s)", hx.CoqN(a.K), coqVal(a.V))
 	}
 
-	return fmt.Sprintf("{| c_id := %s; c_issuer := %s; c_subject := %s; c_types := %s; c_proofs := %s; c_jwt := %s; c_attrs := %s |}",
+	return fmt.Sprintf("{| c_id := %s; c_issuer := %s; c_subject := %s; c_types := %s; c_proofs := %s; c_jwt := %s; c_sd := %s; c_rawsubj := %s; c_attrs := %s |}",
 		hx.CoqN(c.ID), hx.CoqN(c.Issuer), hx.CoqN(c.Subject), hx.CoqNList(c.Types), hx.CoqNList(c.Proofs),
-		hx.CoqN(c.JWT), hx.CoqList(at))
+		hx.CoqN(c.JWT), hx.CoqBool(c.SD), hx.CoqBool(c.MapSubject), hx.CoqList(at))
 }
 
 func coqCreds(cs []Cred) string {
@@ -309,7 +317,7 @@ func valEq(a, b Val) bool {
 	switch a.T {
 	case "n":
 		return a.N == b.N
-	case "s":
+	case "s", "a":
 		return a.S == b.S
 	default:
 		return a.B == b.B
